@@ -74,7 +74,7 @@ package store
 // FSM has reached the read index (the only nil return is the receive on the channel obtained by
 // subscribing the read index).
 //@ func (*Store) waitForLinearizableRead
-//@   requires [built] s != nil && s.fsmTarget != nil
+//@   requires [built] s != nil && s.fsmTarget != nil && s.reqMarshaller != nil
 //@   assigns *, chanClosed
 //@   ghost var step int = 0
 //@   ghost var ok bool = true
@@ -89,6 +89,7 @@ package store
 //@   ghost update @s.Ready: ok = ok && result
 //@   ghost update @s.Ready: step = 3
 //@   assert @s.raft.CommitIndex: [order-4] step == 3
+//@   assume @s.raft.CommitIndex: [raft-commit-index] lastCommandIndex() <= result
 //@   ghost update @s.raft.CommitIndex: ri = result
 //@   ghost update @s.raft.CommitIndex: step = 4
 //@   assert @s.VerifyLeader: [order-5-verify-after-readindex] step == 4
@@ -99,10 +100,11 @@ package store
 //@   ghost update @s.raft.CurrentTerm: step = 6
 //@   assert @s.fsmTarget.Subscribe: [order-7-wait-readindex] step == 6 && arg0 == ri
 //@   ghost update @s.fsmTarget.Subscribe: step = 7
+//@   assert @s.fsmTarget.Subscribe: [progress] arg0 <= lastCommandIndex()
 //@   ensures [nil-means-all] result == nil ==> (step == 7 && ok)
 //
 //@ func (*Store) Query
-//@   requires [built] s != nil && s.fsmTarget != nil
+//@   requires [built] s != nil && s.fsmTarget != nil && s.reqMarshaller != nil
 //@   assigns *, chanClosed
 //@   ghost var lv0 int = qr.Level
 //@   ghost var pragmaOK bool = false
@@ -187,3 +189,30 @@ package store
 //@ func (*Provider) LastIndex
 //@   requires [recv] p != nil
 //@   ensures [no-error] result1 == nil
+//
+// ---- C38 / C01 / C25 / C04: the apply function --------------------------------------------------
+// Every delivered entry goes through exactly one cmdProc.Process(l.Data, s.db); the CDC streamer is
+// reset to the entry's index before that; the FSM-progress signal for l.Index fires on every path
+// and only after the entry was processed; the database-applied index moves only when the entry
+// changed the database; a LOAD raises the full-snapshot requirement in the same apply.
+//@ func (*Store) fsmApply
+//@   requires [built] s != nil && l != nil && s.fsmTarget != nil && s.appliedTarget != nil
+//@   assigns *, chanClosed
+//@   ghost var nProcess int = 0
+//@   ghost var signalled bool = false
+//@   ghost var mut bool = false
+//@   ghost var fullSet bool = false
+//@   ghost var isLoad bool = false
+//@   ghost update @def:cmd: isLoad = (cmd != nil && cmd.Type == proto.Command_COMMAND_TYPE_LOAD)
+//@   assert @s.cdcStreamer.Reset: [cdc-index-before-process] nProcess == 0 && arg0 == l.Index
+//@   assert @s.cmdProc.Process: [one-apply-function] nProcess == 0 && arg0 == l.Data && arg1 == s.db && !signalled
+//@   ghost update @s.cmdProc.Process: nProcess = nProcess + 1
+//@   ghost update @s.cmdProc.Process: mut = result1
+//@   assert @s.dbAppliedIdx.Store: [applied-index-only-if-mutated] mut && nProcess == 1 && arg0 == l.Index
+//@   assert @s.appliedTarget.Signal: [applied-signal-only-if-mutated] mut && nProcess == 1 && arg0 == l.Index
+//@   assert @s.fsmTarget.Signal: [signal-after-process] nProcess == 1 && arg0 == l.Index
+//@   ghost update @s.fsmTarget.Signal: signalled = true
+//@   assert @s.snapshotStore.SetDueNext: [load-needs-full] arg0 == snapshot.Full && cmd.Type == proto.Command_COMMAND_TYPE_LOAD
+//@   ghost update @s.snapshotStore.SetDueNext: fullSet = true
+//@   ensures [signal-always] signalled && nProcess == 1
+//@   ensures [load-full] isLoad ==> fullSet
